@@ -502,7 +502,7 @@ pub fn generate(thorough: bool, seed: u64, out: &mut dyn Write) {
         writeln!(out, "shcrc {}", hex(&s)).unwrap();
     }
     // ---- shader packages
-    let n = if thorough { 20_000 } else { 500 };
+    let n = if thorough { 150_000 } else { 500 };
     for i in 0..n {
         writeln!(out, "{}", gen_shpk(&mut rng, i % 10 == 9)).unwrap();
     }
@@ -513,7 +513,7 @@ pub fn generate(thorough: bool, seed: u64, out: &mut dyn Write) {
             writeln!(out, "{}", gen_mtrl(&mut rng, Some(base + shift))).unwrap();
         }
     }
-    let n = if thorough { 30_000 } else { 400 };
+    let n = if thorough { 150_000 } else { 400 };
     for _ in 0..n {
         writeln!(out, "{}", gen_mtrl(&mut rng, None)).unwrap();
     }
